@@ -54,3 +54,28 @@ Print Assumptions C19_filter_schedule_independent.
 Print Assumptions C19_level_par_eq_serial.
 Print Assumptions C19_mphf_parallel_eq_serial.
 Print Assumptions C19_finish_eq_finish_serial.
+
+(* The constructed function is a minimal perfect hash whenever construction terminates within MAX_ITERS levels
+   (hypothesis [mphf_new .. = Some m]; otherwise the Rust code panics) on duplicate-free keys (boomphf's
+   documented precondition): total and injective on the keys, values below n; moreover ANY item hitting a set
+   bit receives the value of some key, so the key verification of get always has a key to compare with.
+   Rank is "number of set bits before the slot"; boomphf's word-level rank code is not modelled. *)
+Theorem C19_mphf_perfect : forall (h : nat -> nat -> key -> nat) (sz : nat -> nat),
+  (forall iter n k, h iter (sz n) k < sz n) ->
+  forall keys m, NoDup keys -> mphf_new h sz keys = Some m ->
+    (forall k, In k keys -> exists r, try_hash h m k = Some r) /\
+    (forall k1 k2 r, In k1 keys -> In k2 keys -> try_hash h m k1 = Some r -> try_hash h m k2 = Some r -> k1 = k2) /\
+    (forall q r, try_hash h m q = Some r -> r < length keys /\ exists k, In k keys /\ try_hash h m k = Some r).
+Proof. exact mphf_perfect. Qed.
+
+(* BoomHashMap::get on the constructed map: never panics (outer Some) and returns Some v exactly for the
+   stored pairs - in particular None for every absent key, whatever it hashes to (key verification). *)
+Theorem C19_lookup_exact : forall (h : nat -> nat -> key -> nat) (sz : nat -> nat),
+  (forall iter n k, h iter (sz n) k < sz n) ->
+  forall (V : Type) keys (vals : list V) m, NoDup keys -> length vals = length keys ->
+    bhm_new h sz keys vals = Some m ->
+    forall k, exists o, bhm_get h m k = Some o /\ forall v, o = Some v <-> In (k, v) (combine keys vals).
+Proof. intros h sz H V. exact (@lookup_exact h sz H V). Qed.
+
+Print Assumptions C19_mphf_perfect.
+Print Assumptions C19_lookup_exact.
